@@ -43,7 +43,7 @@ Rewrite rules (each application is counted per function and reported in the evid
       `Some((_, Dir::Left))`): by default binding modes both match exactly the same values; Verus rejects `&` patterns
   R17 `for &(a, b) in EXPR {` -> `for r17_ in EXPR { let (a, b) = *r17_;`: the reference pattern of a `for` header
       becomes a first body statement copying the (Copy) tuple out of the reference - same bindings, same values
-  R19 `//@fmtlit ID "LITERAL"` declares a format string; in a unit with such declarations `writeln!(w, LITERAL, a, b, ..)` becomes
+  R19 `//@fmtlit ID "LITERAL"` declares a format string; in a unit with such declarations `writeln!(w, LITERAL, a, b, ..)` / `write!(w, LITERAL, ..)` becomes
       `fmtlog::lineN(w, ID, a, b, ..)` (prelude-style seam: appends (ID, rendered arguments) to the sink's ghost line log); an
       undeclared literal in such a unit is an extraction error (undecided), so a changed format string cannot pass unnoticed
   R18 `| where K: Ord`: a supertrait bound of the real trait (`Kmer: ... + Ord`) that the Verus-side seam trait does not carry
@@ -349,14 +349,14 @@ def apply_rewrites(body, counts):
         args = [body[a:b].strip() for a, b in parts]
         if len(args) == 3 and args[1] == '"{}"' and name == "write":
             edits.append((s_, c + 1, "fmt::sink(%s, %s)" % (args[0], args[2])))
-        elif FMT_LITERALS and name == "writeln" and (args[1] if len(args) >= 2 else '""') in FMT_LITERALS:
+        elif FMT_LITERALS and (args[1] if len(args) >= 2 else '""') in FMT_LITERALS:
             # R19: `writeln!(w, LIT, a, b, ..)` with a DECLARED literal -> `fmtlog::lineN(w, id, a, b, ..)`: the line is recorded in
             # the sink's ghost log as (id of the format string, rendered arguments); a bare `writeln!(w)` is the literal ""
             lit = args[1] if len(args) >= 2 else '""'
             edits.append((s_, c + 1, "fmtlog::line%d(%s)" % (max(len(args) - 2, 0), ", ".join([args[0], str(FMT_LITERALS[lit])] + args[2:]))))
             counts["R19"] = counts.get("R19", 0) + 1
             continue
-        elif FMT_LITERALS and name == "writeln":
+        elif FMT_LITERALS:
             raise ExtractError("R19: format string %s is not one of the unit's declared literals" % (args[1] if len(args) > 1 else "?"))
         else:
             edits.append((s_, c + 1, "fmt::sink_other(%s)" % args[0]))
